@@ -414,6 +414,17 @@ theorem C05_redefinition_first_emitted_latest_kept (x y : String) (hxy : x ≠ y
   have hyx : ¬ y = x := fun h => hxy h.symm
   simp [processDefs, processDef, cexprTop, cexprNum, lookup, cexprBin, cexprIntBin, isCexprBinOp, hxy, hyx, wrap64]
 
+/-- open reference: `#define A 1+2`, `#define B (A*3)` — cexpr substitutes the VALUE of `A`
+(B = 9) where C substitutes its tokens (`1+2*3` = 7, judged by clang in the correspondence run);
+the definition lies in region `p` -/
+theorem C05_cexpr_open_reference :
+    let defs := [("A", Expr.bin .add (.int true 1 .none) (.int true 2 .none)),
+                 ("B", Expr.paren (.bin .mul (.ident "A") (.int true 3 .none)))]
+    (processDefs (fun _ => none) [] defs).map (fun p => p.2.emitted) = [some (.int 3), some (.int 9)] ∧
+    (defFlags [] defs (nameFlags [] defs) "B" (Expr.paren (.bin .mul (.ident "A") (.int true 3 .none)))).p = true ∧
+    clookup (cFinalEnv defs) "B" = none := by
+  decide
+
 theorem C05_cexpr_ne_c_redefinition :
     let defs := [("X", Expr.int true 1 .none),
                  ("Y", Expr.paren (.bin .add (.ident "X") (.int true 10 .none))),
@@ -421,4 +432,36 @@ theorem C05_cexpr_ne_c_redefinition :
     clookup (cFinalEnv defs) "X" = some (.int .int 2) ∧ clookup (cFinalEnv defs) "Y" = some (.int .int 12) ∧
     (processDefs (fun _ => none) [] defs).map (fun p => p.2.emitted) = [some (.int 1), some (.int 11), none] := by
   decide
+end BindgenModel.CExpr
+
+/-! Part 4: the FULL statement for macro constants, and why only its partial form is provable. -/
+namespace BindgenModel.CExpr
+
+/-- the emitted value is the value C computes -/
+def valueAgrees : Res → CVal → Bool
+  | .int v, .int _ v' => v == v'
+  | .chr c, .int _ v' => Int.ofNat c == v'
+  | .flt b, .flt .double b' => b == b'
+  | .str bs, .str .none bs' _ => bs == bs'
+  | .str bs, .str .u8 bs' _ => bs == bs'
+  | _, _ => false
+
+/-- **FULL statement (macros), never weakened:** every constant bindgen emits for a macro of a
+header carries the value the C compiler computes for that name (at the end of the header);
+what it cannot evaluate faithfully is omitted. -/
+def C05_statement : Prop :=
+  ∀ (defs : List (String × Expr)) (name : String) (st : Step),
+    (name, st) ∈ processDefs (fun _ => none) [] defs →
+    ∀ r, st.emitted = some r → ∃ cv, clookup (cFinalEnv defs) name = some cv ∧ valueAgrees r cv = true
+
+/-- the full statement is FALSE of the model (and of bindgen: the witness is replayed against
+the real code on every run — known finding `macro_unsigned_wrap`) -/
+theorem C05_statement_fails : ¬ C05_statement := by
+  intro h
+  have h1 := h [("BIG", .int false 18446744073709551615 .none)] "BIG"
+    (processDef (fun _ => none) [] "BIG" (.int false 18446744073709551615 .none)) (by decide)
+    (.int (-1)) (by decide)
+  revert h1
+  decide
+
 end BindgenModel.CExpr
